@@ -56,6 +56,7 @@ func (d *Doc) Clone() *Doc {
 //	tag    text  "keyword" analyzer, stored, doc values, multi-valued
 //	num    number stored; date datetime stored; flag boolean stored
 //	notv   text  "simple", no term vectors, not stored (optimisable unadorned paths)
+//	ver    number stored (version marker used by the writer workloads)
 func Mapping() *mapping.IndexMappingImpl {
 	m := bleve.NewIndexMapping()
 	dm := bleve.NewDocumentStaticMapping()
@@ -103,6 +104,11 @@ func Mapping() *mapping.IndexMappingImpl {
 	flag.Store = true
 	flag.IncludeInAll = false
 	dm.AddFieldMappingsAt("flag", flag)
+
+	ver := bleve.NewNumericFieldMapping()
+	ver.Store = true
+	ver.IncludeInAll = false
+	dm.AddFieldMappingsAt("ver", ver)
 
 	m.DefaultMapping = dm
 	m.DefaultAnalyzer = "standard"
